@@ -67,14 +67,38 @@ ALPHABET = [
     # a default that is not a number is inside no limit: legal only while the category has none
     ("AddCategory", ("lim2", "length"), {"default_value": NAN, "override": True}),
     ("AddCategory", ("lim3",), {"from_category": "lim2", "min_value": 0.0}),
+    # questions asked before / between the registrations (refused or answered - they must leave nothing behind that a later
+    # registration does not supersede)
+    ("Probe", ("depth", "cm"), {}),
+    ("Probe", ("lim", "m"), {}),
     # a symbol that happens to be a legacy spelling of another symbol is a legal symbol: the unit registered under it is
     # a unit of its own, with its own factors, whether or not the current spelling ('Mcf') is registered too
     ("AddUnit", ("volume", "thousand cubic feet (old symbol)", "1000ft3", "%f*28.0", "%f/28.0"), {}),
 ]
 
 
+def probe_questions(db, category, unit):
+    """what a program may ask before (or after) the names it asks about are registered; every answer or refusal is fine,
+    none may leave anything behind"""
+    from collections import OrderedDict
+
+    from barril.units import ObtainQuantity, Scalar
+
+    for fn in (
+        lambda: db.CheckCategoryUnit(category, unit), lambda: ObtainQuantity(OrderedDict([(category, [unit, 2])])), lambda: Scalar(1.0, unit, category), lambda: db.GetDefaultCategory(unit),
+        lambda: Scalar(1.0, unit), lambda: db.GetValidUnits(category), lambda: db.GetInfo(category, unit), lambda: db.GetQuantityType(unit), lambda: ObtainQuantity(unit), lambda: db.GetDefaultUnit(category),
+    ):  # fmt: skip
+        try:
+            fn()
+        except Exception:
+            pass
+
+
 def run_call(db, call):
     name, args, kw = call
+    if name == "Probe":
+        probe_questions(db, *args)
+        return "accept", None
     kw = {k: (list(v) if isinstance(v, list) else v) for k, v in kw.items()}
     try:
         getattr(db, name)(*args, **kw)
@@ -327,6 +351,8 @@ def random_call(r, m):
     legacy = {"Mcf": ["1000ft3", "k(ft3)"], "MMm3": ["M(m3)"]}
     cats = ["length", "depth", "vol", "time", "x", "y", "volume"]
     k = r.random()
+    if r.random() < 0.12:
+        return ("Probe", (r.choice(cats), r.choice(units[r.choice(qts)])), {})
     if k < 0.18:
         qt = r.choice(qts)
         return ("AddUnitBase", (qt, "n", r.choice(units[qt] + ["m"])), {})
